@@ -44,7 +44,7 @@ func funcKey(fn *types.Func) string {
 	return fn.FullName()
 }
 
-var reLocalMethod = regexp.MustCompile(`^\(\s*(?:(\w+)\s+)?(\*?)(\w+)\s*\)\s*\.?\s*(\w+)$`)
+var reLocalMethod = regexp.MustCompile(`^\(\s*(?:(\w+)\s+)?(\*?)(\w+(?:\[[\w, ]+\])?)\s*\)\s*\.?\s*(\w+)$`)
 
 // resolveKey turns a contract key as written into the types.Func full name.
 func resolveKey(key, pkgPath string) string {
